@@ -35,7 +35,7 @@ inline void parseLeakReport(const Str& t, Vec<LeakEntry>& out, long& total) {
 // The line by which a report says that entries were dropped: every line of an overflowing report that is not part of an entry (those start with
 // "Alloc num (", a tab or blanks, or are empty) and does not occur, digits aside, in a report that lists everything.
 inline Str& droppedNotice() { static Str* s = new (::malloc(sizeof(Str))) Str(); return *s; }
-inline Str digitsOut(const Str& l) { Str r; for (size_t i = 0; i < l.size(); i++) r += (l[i] >= '0' && l[i] <= '9') ? '#' : l[i]; return r; }
+inline Str digitsOut(const Str& l) { Str r; for (size_t i = 0; i < l.size(); i++) { bool dg = l[i] >= '0' && l[i] <= '9'; if (dg && !r.empty() && r[r.size() - 1] == '#') continue; r += dg ? '#' : l[i]; } return r; }      // a number of any length reads #
 inline void learnDroppedNotice(const Str& small, const Str& big) {
     Vec<Str> known; size_t p = 0;
     while (p <= small.size()) { size_t q = small.find('\n', p); if (q == Str::npos) q = small.size(); known.push_back(digitsOut(small.substr(p, q - p))); p = q + 1; }
